@@ -33,6 +33,7 @@ VERIF = os.path.dirname(os.path.dirname(os.path.abspath(__file__)))
 REPO = os.environ.get("NGS_REPO", "/repo")
 # number of deterministic unit batches (one fresh process each)
 BATCHES = int(os.environ.get("VERIF_BATCHES", "48"))
+ECHO = os.environ.get("VERIF_ECHO", "1") != "0"
 MAX_RECORDS_PER_SIG = 25      # full records kept per signature per unit
 
 
@@ -261,6 +262,17 @@ def _batch_run(items):
             for rec in res["violations"]:
                 rec["batch_prefix"] = list(done)
         out.append((idx, res, err))
+    if len(items) >= 2 and ECHO:
+        # echo: the batch's first unit once more at the end of the batch,
+        # i.e. after every other unit of the batch has run in this process.
+        # Only its violations are kept (state leaking from later units back
+        # into earlier configurations); its counts are not added again.
+        idx, res, err = _worker_run(items[0])
+        if res is not None:
+            for rec in res["violations"]:
+                rec["batch_prefix"] = list(done) + [idx]
+                rec["echo"] = True
+        out.append((idx, ("echo", res), err))
     return out
 
 
@@ -364,6 +376,7 @@ def _run_check(mod, modname, prop_id, tier, seed, jobs, scratch, t0,
         order = order[rot:] + order[:rot]
     work = [(i, units[i]) for i in order]
     results = [None] * n_units
+    echoes = []
     errors = []
     ctx = multiprocessing.get_context("fork")
     _preimport()
@@ -377,6 +390,10 @@ def _run_check(mod, modname, prop_id, tier, seed, jobs, scratch, t0,
             for i, res, err in out:
                 if err:
                     errors.append((i, err))
+                if isinstance(res, tuple) and res[0] == "echo":
+                    if res[1] is not None:
+                        echoes.append(res[1])
+                    continue
                 results[i] = res
     if errors:
         errors.sort()
@@ -403,6 +420,11 @@ def _run_check(mod, modname, prop_id, tier, seed, jobs, scratch, t0,
         for s in res["samples"]:
             if len(tot["samples"]) < 5:
                 tot["samples"].append(s)
+
+    for res in echoes:
+        tot["violation_count"] += res["violation_count"]
+        tot["violations"].extend(res["violations"])
+    tot["extra"]["echo_units"] = len(echoes)
 
     # ---- classify / confirm violations
     by_sig = {}
